@@ -675,6 +675,7 @@ func (c *Ctx) checkBasicAuth() {
 		}
 	})
 	r.Check(lower, "C12.4b-login-case", fk(ps)+": login passes through strings.ToLower", c.P.Pos(ps.Pos()), "", "logins are no longer lower-cased: 'Alice' and 'alice' become different accounts")
+	c.checkPasswordVerbatim()
 	// every unique argument of the auth-record store calls derives from parseSecret #0
 	for _, mname := range []string{"GetAuthUniqueRecord", "AddAuthRecord", "UpdateAuthRecord"} {
 		m := c.E().storeIface("UsersPersistenceInterface", mname)
